@@ -452,7 +452,10 @@ def m_opt_residual(ex, c, args, m): return none()
 # ------------------------------------------------------------------ closures
 @M.add(r'^<\{closure@([^}]*)\} as Fn(Mut|Once)?<.*>>::call(_mut|_once)?$')
 def m_closure_call(ex, c, args, m):
-    tupv = args[1]; return call_fn(ex, args[0], [tupv.f[i] for i in sorted(tupv.f)])
+    tupv = args[1]; f = args[0]
+    try: dd(f)
+    except KeyError: f = Struct({}, 'closure@' + m.group(1))      # a capture-less closure is a zero-sized local that MIR never initialises
+    return call_fn(ex, f, [tupv.f[i] for i in sorted(tupv.f)])
 @M.add(r'^<(impl |dyn |Box<dyn |&dyn |&mut dyn |&impl |[A-Z]\w* as |&[A-Z]\w* as |&mut [A-Z]\w* as |fn\().* as Fn(Mut|Once)?<.*>>::call(_mut|_once)?$|^<.* as Fn(Mut|Once)?<.*>>::call(_mut|_once)?$')
 def m_dyn_call(ex, c, args, m):
     f = args[0]
@@ -874,7 +877,7 @@ def m_zip(ex, c, args, m): return It(tup(x, y) for x, y in zip(as_it(ex, args[0]
 @M.add(r' as Iterator>::enumerate$')
 def m_enumerate(ex, c, args, m): return It(tup(U64(i), x) for i, x in enumerate(as_it(ex, args[0])))
 @M.add(r' as Iterator>::(copied|cloned)(::<.*>)?$')
-def m_copied(ex, c, args, m): return It(cp(dd(r)) if isinstance(r, Ref) else cp(r) for r in as_it(ex, args[0]))
+def m_copied(ex, c, args, m): return It(cp(r.c[r.k]) if isinstance(r, Ref) else cp(r) for r in as_it(ex, args[0]))      # one level: copied() on &&T yields &T
 @M.add(r' as Iterator>::rev$')
 def m_rev(ex, c, args, m): return It(list(reversed(tolist(ex, args[0]))))
 @M.add(r' as Iterator>::(skip|take)$')
@@ -1133,3 +1136,35 @@ def m_windows(ex, c, args, m):
 def m_chunks(ex, c, args, m):
     sl = args[0]; n = conc(args[1])
     return It([SliceRef(sl.lst, sl.start + i, min(sl.start + i + n, sl.end)) for i in range(0, len(sl), n)])
+
+# ------------------------------------------------------------------ sets of raw pointers: identity, not value
+def _ptr_same(a, b):
+    return isinstance(a, Ref) and isinstance(b, Ref) and a.c is b.c and a.k == b.k
+@M.add(r'^std::collections::HashSet::<\*(const|mut) .*>::(insert|contains)(::<.*>)?$', front=True)
+def m_ptrset_ops(ex, c, args, m):
+    st = dd(args[0]); k = args[1] if m.group(2) == 'insert' else deref(args[1])
+    hit = any(_ptr_same(x, k) for x in st.items)
+    if m.group(2) == 'contains': return B(hit)
+    if not hit: st.items.append(k)
+    return B(not hit)
+@M.add(r' as Iterator>::collect::<(std::collections::)?HashSet<\*(const|mut) .*>>$', front=True)
+def m_ptrset_collect(ex, c, args, m):
+    out = HS()
+    for x in tolist(ex, args[0]):
+        if not any(_ptr_same(x, y) for y in out.items): out.items.append(x)
+    return out
+@M.add(r'^std::collections::HashSet::<\*(const|mut) .*>::(is_disjoint|is_subset)$', front=True)
+def m_ptrset_rel(ex, c, args, m):
+    a, b = dd(args[0]), dd(args[1])
+    if m.group(2) == 'is_disjoint': return B(not any(_ptr_same(x, y) for x in a.items for y in b.items))
+    return B(all(any(_ptr_same(x, y) for y in b.items) for x in a.items))
+@M.add(r'^std::collections::HashSet::<\*(const|mut) .*>::union$', front=True)
+def m_ptrset_union(ex, c, args, m):
+    a, b = dd(args[0]), dd(args[1])
+    return It([Ref({'p': x}, 'p') for x in list(a.items) + [y for y in b.items if not any(_ptr_same(x, y) for x in a.items)]])
+@M.add(r'^<std::collections::HashSet<\*(const|mut) .*> as PartialEq>::(eq|ne)$', front=True, first=True)
+def m_ptrset_eq(ex, c, args, m):
+    a, b = dd(args[0]), dd(args[1])
+    e = len(a.items) == len(b.items) and all(any(_ptr_same(x, y) for y in b.items) for x in a.items)
+    return B(e if m.group(2) == 'eq' else not e)
+M.consts[r'^(std::iter::|core::iter::)?(Copied|Cloned)::<.*Empty::<'] = lambda ex, body: It([])
